@@ -28,6 +28,7 @@ import (
 	"os"
 	"os/exec"
 	"path/filepath"
+	"regexp"
 	"sort"
 	"strconv"
 	"strings"
@@ -36,10 +37,14 @@ import (
 
 type rpVar struct {
 	Name  string // Go identifier of the parameter / field / result
-	Kind  string // int, uint, bool, string, bytes, error, ref (nil-ness only)
+	Kind  string // int, uint, bool, string, bytes, stream (io.Reader/Writer double), error, ref (nil-ness only), struct (*T with plain fields)
 	GoT   string // Go type text usable inside the function's package
 	Val   Val
 	Field bool
+	// stream: spec terms of the reader/writer ghosts before and after the call
+	pre, post map[string]Term
+	// struct result: its plain fields
+	sub []rpVar
 }
 
 type replayTpl struct {
@@ -102,6 +107,29 @@ func rpKind(T types.Type, pkg *types.Package) (kind, goT string, ok bool) {
 	return "", "", false
 }
 
+// streamDouble: T is an interface the generated double can stand in for (every method is one the double has, and it
+// reads or writes).
+func streamDouble(T types.Type) bool {
+	it, ok := T.Underlying().(*types.Interface)
+	if !ok || it.NumMethods() == 0 {
+		return false
+	}
+	have := map[string]bool{"Read": true, "Write": true, "Close": true, "LocalAddr": true, "RemoteAddr": true, "SetDeadline": true, "SetReadDeadline": true, "SetWriteDeadline": true}
+	rw := false
+	for i := 0; i < it.NumMethods(); i++ {
+		n := it.Method(i).Name()
+		if !have[n] {
+			return false
+		}
+		if n == "Read" || n == "Write" {
+			rw = true
+		}
+	}
+	return rw
+}
+
+var reStreamMod = regexp.MustCompile(`^(rpos|rfail|rdone|wpos|wdata|wfail)\((\w+)\)$`)
+
 // buildReplayTemplate records, for a function in the replayable subset, its postconditions instantiated over fresh
 // result values in the entry state.
 func (u *Unit) buildReplayTemplate(key string, env *specEnv, c *Contract) {
@@ -111,8 +139,15 @@ func (u *Unit) buildReplayTemplate(key string, env *specEnv, c *Contract) {
 	if u.sig.TypeParams().Len() > 0 || u.sig.RecvTypeParams().Len() > 0 {
 		return
 	}
-	if len(c.Modifies) > 0 || c.Flags["noframe"] != "" {
-		return // the judgement step evaluates the postcondition in the entry heap: only for functions that change nothing
+	if c.Flags["noframe"] != "" {
+		return
+	}
+	// the judgement step evaluates the postcondition in the entry heap: only for functions that change nothing - or
+	// nothing but the reader/writer ghosts of a stream parameter, which the run's observations pin down
+	for _, m := range c.Modifies {
+		if !reStreamMod.MatchString(strings.ReplaceAll(m.Text, " ", "")) {
+			return
+		}
 	}
 	pkg := u.pkg.Types
 	t := &replayTpl{pkgName: pkg.Name(), fn: u.fnObj.Name(), posts: map[string]Term{}}
@@ -126,6 +161,9 @@ func (u *Unit) buildReplayTemplate(key string, env *specEnv, c *Contract) {
 	for i := 0; i < u.sig.Params().Len(); i++ {
 		p := u.sig.Params().At(i)
 		k, g, ok := rpKind(p.Type(), pkg)
+		if !ok && streamDouble(p.Type()) && p.Name() != "" && p.Name() != "_" {
+			k, g, ok = "stream", "", true
+		}
 		if !ok || p.Name() == "" || p.Name() == "_" {
 			if p.Name() == "" || p.Name() == "_" {
 				// unnamed parameter: any value will do, but only for plain kinds
@@ -199,6 +237,55 @@ func (u *Unit) buildReplayTemplate(key string, env *specEnv, c *Contract) {
 	for k, v := range env.vars {
 		penv.vars[k] = v
 	}
+	// stream parameters: their ghosts before the call, the modifies clauses applied, their ghosts after it
+	specTerm := func(e *specEnv, text string) Term {
+		x, err := parseSpecExpr(text)
+		if err != nil {
+			return ""
+		}
+		v, err := u.specVal(e, Clause{Text: text, Expr: x, Where: c.Where})
+		if err != nil {
+			return ""
+		}
+		return v.S
+	}
+	streams := map[string]int{}
+	for i, p := range t.params {
+		if p.Kind == "stream" {
+			streams[p.Name] = i
+		}
+	}
+	for _, m := range c.Modifies {
+		mm := reStreamMod.FindStringSubmatch(strings.ReplaceAll(m.Text, " ", ""))
+		if _, ok := streams[mm[2]]; !ok {
+			return
+		}
+	}
+	eenv := &specEnv{u: u, st: u.entry, old: u.entry, vars: penv.vars, pkg: pkg, where: c.Where}
+	for _, i := range streams {
+		p := &t.params[i]
+		p.pre, p.post = map[string]Term{}, map[string]Term{}
+		for _, g := range []string{"rpos", "rend", "rfail", "rdone", "wpos", "wfail", "rdata", "wdata"} {
+			p.pre[g] = specTerm(eenv, g+"("+p.Name+")")
+			if p.pre[g] == "" {
+				return
+			}
+		}
+	}
+	for _, m := range c.Modifies {
+		if err := u.havocTarget(ts, penv, m); err != nil {
+			return
+		}
+	}
+	for _, i := range streams {
+		p := &t.params[i]
+		for _, g := range []string{"rpos", "rend", "rfail", "rdone", "wpos", "wfail", "rdata", "wdata"} {
+			p.post[g] = specTerm(penv, g+"("+p.Name+")")
+			if p.post[g] == "" {
+				return
+			}
+		}
+	}
 	var rvals []Val
 	for i := 0; i < u.sig.Results().Len(); i++ {
 		rT := u.sig.Results().At(i).Type()
@@ -208,6 +295,14 @@ func (u *Unit) buildReplayTemplate(key string, env *specEnv, c *Contract) {
 			switch rT.Underlying().(type) {
 			case *types.Pointer, *types.Map, *types.Chan, *types.Signature:
 				k = "ref"
+				if pt, isP := rT.Underlying().(*types.Pointer); isP {
+					if n, isN := types.Unalias(pt.Elem()).(*types.Named); isN && n.Obj().Pkg() == pkg {
+						if st, isS := n.Underlying().(*types.Struct); isS {
+							k = "struct"
+							_ = st
+						}
+					}
+				}
 			case *types.Interface:
 				k = "ref"
 				if isNamed(rT, "", "error") {
@@ -220,7 +315,20 @@ func (u *Unit) buildReplayTemplate(key string, env *specEnv, c *Contract) {
 		v := u.freshVal(fmt.Sprintf("replay.r%d", i), rT)
 		ts.assume(u.typeAssume(v))
 		rvals = append(rvals, v)
-		t.results = append(t.results, rpVar{Name: fmt.Sprintf("r%d", i), Kind: k, GoT: g, Val: v})
+		rv := rpVar{Name: fmt.Sprintf("r%d", i), Kind: k, GoT: g, Val: v}
+		if k == "struct" {
+			n := types.Unalias(rT.Underlying().(*types.Pointer).Elem()).(*types.Named)
+			sT := n.Underlying().(*types.Struct)
+			for fi := 0; fi < sT.NumFields(); fi++ {
+				f := sT.Field(fi)
+				fk, fg, ok := rpKind(f.Type(), pkg)
+				if !ok || fk == "bytes" || f.Embedded() {
+					continue
+				}
+				rv.sub = append(rv.sub, rpVar{Name: f.Name(), Kind: fk, GoT: fg, Val: u.fieldRead(ts, n, f, v.S)})
+			}
+		}
+		t.results = append(t.results, rv)
 	}
 	res := Val{Kind: KTuple, Elems: rvals}
 	if len(rvals) == 1 {
@@ -256,6 +364,47 @@ func (u *Unit) buildReplayTemplate(key string, env *specEnv, c *Contract) {
 	u.replay = t
 }
 
+// groundInstances: for a hypothesis (forall ((i Int)) body) the instances body[i := 0], ..., body[i := upto]. The model
+// search without quantified hypotheses would otherwise know nothing of what, say, io.ReadFull's contract says about
+// the bytes it delivered ("buf[i] == rdata(r)[pos+i] for all i").
+func groundInstances(t Term, upto int) []Term {
+	n := parseSx(t)
+	if n == nil || len(n.kids) != 3 || n.kids[0].atom != "forall" || len(n.kids[1].kids) != 1 {
+		return nil
+	}
+	b := n.kids[1].kids[0]
+	if len(b.kids) != 2 || b.kids[1].atom != "Int" {
+		return nil
+	}
+	v := b.kids[0].atom
+	body := n.kids[2]
+	if len(body.kids) >= 2 && body.kids[0].atom == "!" {
+		body = body.kids[1]
+	}
+	if hasQuantifier(body.String()) {
+		return nil
+	}
+	var subst func(x *sx, c string) *sx
+	subst = func(x *sx, c string) *sx {
+		if x.kids == nil {
+			if x.atom == v {
+				return &sx{atom: c}
+			}
+			return x
+		}
+		y := &sx{}
+		for _, k := range x.kids {
+			y.kids = append(y.kids, subst(k, c))
+		}
+		return y
+	}
+	var out []Term
+	for c := 0; c <= upto; c++ {
+		out = append(out, subst(body, fmt.Sprint(c)).String())
+	}
+	return out
+}
+
 func hasQuantifier(t Term) bool {
 	return strings.Contains(t, "(forall ") || strings.Contains(t, "(exists ")
 }
@@ -275,7 +424,16 @@ func solveModel(text string, secs int) (map[string]string, string) {
 		os.WriteFile(filepath.Join(d, fmt.Sprintf("q%03d.smt2", len(es))), []byte(text), 0o644)
 	}
 	last := "unknown"
-	for _, sr := range solvers {
+	use := solvers
+	if secs < 0 {
+		// judgement queries: one solver, short budget (there may be dozens of clauses)
+		secs = -secs
+		use = solvers[:1]
+	}
+	for _, sr := range use {
+		if !replayTimeLeft() {
+			return nil, "timeout"
+		}
 		res, out, _ := runSolver(sr, f, time.Duration(secs)*time.Second)
 		last = res
 		if res == "unsat" {
@@ -326,7 +484,20 @@ type rpConcrete struct {
 }
 
 // tryReplay: see the comment at the top of this file. Returns (confirmed, record for the replay file).
+// replayDeadline bounds the time one check spends on replays (model searches, test runs, judgements).
+var replayDeadline time.Time
+
+func replayTimeLeft() bool {
+	if replayDeadline.IsZero() {
+		replayDeadline = time.Now().Add(3 * time.Minute)
+	}
+	return time.Now().Before(replayDeadline)
+}
+
 func tryReplay(u *Unit, prop, name string, o *Obligation, replayDir string) (bool, map[string]any) {
+	if !replayTimeLeft() {
+		return false, map[string]any{"function": u.name, "model_search": "skipped: this run's time budget for replays (3 min) is used up"}
+	}
 	// first with every hypothesis (the solvers sometimes do find a model in spite of the quantifiers), then without the
 	// quantified ones
 	ok, info := tryReplayMode(u, prop, name, o, replayDir, true)
@@ -383,6 +554,10 @@ func tryReplayMode(u *Unit, prop, name string, o *Obligation, replayDir string, 
 	for _, p := range o.PC {
 		if keepQ || !hasQuantifier(p) {
 			base.WriteString("(assert " + p + ")\n")
+		} else {
+			for _, g := range groundInstances(p, maxLen) {
+				base.WriteString("(assert " + g + ")\n")
+			}
 		}
 	}
 	base.WriteString("(assert (not " + o.Goal + "))\n")
@@ -394,6 +569,8 @@ func tryReplayMode(u *Unit, prop, name string, o *Obligation, replayDir string, 
 			return v.Val.Len
 		case "string":
 			return tApp("slen", v.Val.S)
+		case "stream":
+			return tSub(v.pre["rend"], v.pre["rpos"]) // the bytes the peer will still deliver
 		}
 		return ""
 	}
@@ -404,6 +581,10 @@ func tryReplayMode(u *Unit, prop, name string, o *Obligation, replayDir string, 
 		if l := lenOf(v); l != "" {
 			lenTerms = append(lenTerms, l)
 			base.WriteString(fmt.Sprintf("(assert (<= %s %d))\n", l, maxLen))
+			if v.Kind == "stream" {
+				// the double is a fresh stream that never fails: nothing read or written yet has gone wrong
+				base.WriteString(fmt.Sprintf("(assert (and (<= 0 %s) (not %s) (not %s) (not %s)))\n", l, v.pre["rfail"], v.pre["wfail"], v.pre["rdone"]))
+			}
 			if v.Kind == "bytes" {
 				base.WriteString(fmt.Sprintf("(assert (<= %s %d))\n", v.Val.Cap, 2*maxLen))
 			}
@@ -435,6 +616,9 @@ func tryReplayMode(u *Unit, prop, name string, o *Obligation, replayDir string, 
 		if v.Kind == "string" {
 			return tApp("sat", v.Val.S, fmt.Sprint(i))
 		}
+		if v.Kind == "stream" {
+			return tSel(v.pre["rdata"], tAdd(v.pre["rpos"], fmt.Sprint(i)))
+		}
 		return tSel(tSel(elemHeap, v.Val.Arr), tAdd(v.Val.Off, fmt.Sprint(i)))
 	}
 	for _, v := range all {
@@ -448,7 +632,7 @@ func tryReplayMode(u *Unit, prop, name string, o *Obligation, replayDir string, 
 			want = append(want, v.Val.Arr, v.Val.Off, v.Val.Cap)
 			pins.WriteString(fmt.Sprintf("(assert (not (= %s 0)))\n", v.Val.Arr)) // a real backing array, also for len 0? keep nil possible below
 			fallthrough
-		case "string":
+		case "string", "stream":
 			if v.Kind == "bytes" && !haveElems {
 				continue
 			}
@@ -513,10 +697,13 @@ func tryReplayMode(u *Unit, prop, name string, o *Obligation, replayDir string, 
 			} else {
 				concPins = append(concPins, tNot(v.Val.S))
 			}
-		case "bytes", "string":
+		case "bytes", "string", "stream":
 			n := lens[lenOf(v)]
 			bs := make([]byte, n)
 			concPins = append(concPins, tEq(lenOf(v), fmt.Sprint(n)))
+			if v.Kind == "stream" {
+				concPins = append(concPins, tNot(v.pre["rfail"]), tNot(v.pre["wfail"]), tNot(v.pre["rdone"]))
+			}
 			for i := int64(0); i < n; i++ {
 				if v.Kind == "bytes" && !haveElems {
 					break
@@ -536,184 +723,269 @@ func tryReplayMode(u *Unit, prop, name string, o *Obligation, replayDir string, 
 		}
 	}
 	info["inputs"] = inputsOut
-	// ---- B: run the real code ----
-	src := t.testSource(conc)
-	os.MkdirAll(replayDir, 0o755)
-	testPath := filepath.Join(replayDir, smtName(strings.ReplaceAll(name, "#", "__"))+"_replay_test.go.txt")
-	os.WriteFile(testPath, []byte(src), 0o644)
-	info["test"] = testPath
-	info["pkg_dir"] = t.pkgDir
-	info["run"] = "./check --replay <this file>   (go test -overlay: the test is injected into " + t.pkgDir + ", nothing is written to /repo)"
-	out, err := runReplayTest(t.pkgDir, src)
-	if err != nil {
-		info["run_error"] = err.Error() + "\n" + tailLines(out, 15)
-		return false, info
+	hasStream := false
+	for _, p := range t.params {
+		if p.Kind == "stream" {
+			hasStream = true
+		}
 	}
-	var obs map[string]any
-	if err := json.Unmarshal([]byte(out), &obs); err != nil {
-		info["run_error"] = "unreadable output: " + out
-		return false, info
-	}
-	info["observed"] = obs
-	// ---- C: judge ----
-	if p, panicked := obs["panic"]; panicked {
-		want := map[string]string{"bounds": "out of range", "nil": "nil pointer", "nilcheck": "nil pointer", "div": "divide by zero", "mapnil": "nil map"}[o.Kind]
-		if o.Kind != "post" && want != "" && !strings.Contains(fmt.Sprint(p), want) {
-			info["verdict"] = fmt.Sprintf("not judged: the real function panics on this input (%v), which is not the kind of failure the obligation is about", p)
+	attempt := func(chunk int, info map[string]any) (bool, map[string]any) {
+		// ---- B: run the real code ----
+		src := t.testSource(conc, chunk)
+		os.MkdirAll(replayDir, 0o755)
+		testPath := filepath.Join(replayDir, smtName(strings.ReplaceAll(name, "#", "__"))+"_replay_test.go.txt")
+		os.WriteFile(testPath, []byte(src), 0o644)
+		info["test"] = testPath
+		info["pkg_dir"] = t.pkgDir
+		info["run"] = "./check --replay <this file>   (go test -overlay: the test is injected into " + t.pkgDir + ", nothing is written to /repo)"
+		out, err := runReplayTest(t.pkgDir, src)
+		if err != nil {
+			info["run_error"] = err.Error() + "\n" + tailLines(out, 15)
 			return false, info
 		}
-		if o.Kind != "post" {
-			info["verdict"] = fmt.Sprintf("confirmed: the real function panics on this input (%v)", p)
-			return true, info
+		var obs map[string]any
+		if err := json.Unmarshal([]byte(out), &obs); err != nil {
+			info["run_error"] = "unreadable output: " + out
+			return false, info
 		}
-		info["verdict"] = fmt.Sprintf("the real function panics on this input (%v); the failed obligation is a postcondition, which a panic neither meets nor refutes", p)
-		return false, info
-	}
-	for _, v := range t.params {
-		if v.Kind == "bytes" && v.Name != "" {
-			if un, _ := obs["unchanged_"+v.Name].(bool); !un {
-				info["verdict"] = "not judged: the function changed its input slice " + v.Name + " (the judgement step assumes inputs are left as they were)"
+		info["observed"] = obs
+		// ---- C: judge ----
+		if p, panicked := obs["panic"]; panicked {
+			want := map[string]string{"bounds": "out of range", "nil": "nil pointer", "nilcheck": "nil pointer", "div": "divide by zero", "mapnil": "nil map"}[o.Kind]
+			if o.Kind != "post" && want != "" && !strings.Contains(fmt.Sprint(p), want) {
+				info["verdict"] = fmt.Sprintf("not judged: the real function panics on this input (%v), which is not the kind of failure the obligation is about", p)
 				return false, info
 			}
-		}
-	}
-	if un, present := obs["unchanged_recv"].(bool); present && !un {
-		info["verdict"] = "not judged: the function changed its receiver (the judgement step assumes a function that changes nothing)"
-		return false, info
-	}
-	var resPins []Term
-	for i, r := range t.results {
-		ov, ok := obs[fmt.Sprintf("r%d", i)].(map[string]any)
-		if !ok {
-			info["verdict"] = "not judged: result missing in the run's output"
+			if o.Kind != "post" {
+				info["verdict"] = fmt.Sprintf("confirmed: the real function panics on this input (%v)", p)
+				return true, info
+			}
+			info["verdict"] = fmt.Sprintf("the real function panics on this input (%v); the failed obligation is a postcondition, which a panic neither meets nor refutes", p)
 			return false, info
 		}
-		switch r.Kind {
-		case "int", "uint":
-			s, _ := ov["v"].(string)
-			if strings.HasPrefix(s, "-") {
-				resPins = append(resPins, tEq(r.Val.S, "(- "+s[1:]+")"))
-			} else {
-				resPins = append(resPins, tEq(r.Val.S, s))
-			}
-		case "bool":
-			if b, _ := ov["v"].(bool); b {
-				resPins = append(resPins, r.Val.S)
-			} else {
-				resPins = append(resPins, tNot(r.Val.S))
-			}
-		case "string":
-			hx, _ := ov["hex"].(string)
-			bs, _ := hex.DecodeString(hx)
-			resPins = append(resPins, tEq(tApp("slen", r.Val.S), fmt.Sprint(len(bs))))
-			for k, b := range bs {
-				resPins = append(resPins, tEq(tApp("sat", r.Val.S, fmt.Sprint(k)), fmt.Sprint(b)))
-			}
-		case "bytes":
-			hx, _ := ov["hex"].(string)
-			bs, _ := hex.DecodeString(hx)
-			isNil, _ := ov["nil"].(bool)
-			capv, _ := ov["cap"].(float64)
-			resPins = append(resPins, tEq(r.Val.Len, fmt.Sprint(len(bs))), tEq(r.Val.Cap, fmt.Sprint(int64(capv))))
-			if isNil {
-				resPins = append(resPins, tEq(r.Val.Arr, "0"), tEq(r.Val.Off, "0"))
-				break
-			}
-			alias, _ := ov["alias"].(string)
-			aoff, _ := ov["alias_off"].(float64)
-			done := false
-			for _, p := range t.params {
-				if p.Kind == "bytes" && p.Name == alias && alias != "" {
-					resPins = append(resPins, tEq(r.Val.Arr, p.Val.Arr), tEq(r.Val.Off, tAdd(p.Val.Off, fmt.Sprint(int64(aoff)))))
-					done = true
+		for _, v := range t.params {
+			if v.Kind == "bytes" && v.Name != "" {
+				if un, _ := obs["unchanged_"+v.Name].(bool); !un {
+					info["verdict"] = "not judged: the function changed its input slice " + v.Name + " (the judgement step assumes inputs are left as they were)"
+					return false, info
 				}
 			}
-			if !done {
-				resPins = append(resPins, tNot(tEq(r.Val.Arr, "0")))
+		}
+		if un, present := obs["unchanged_recv"].(bool); present && !un {
+			info["verdict"] = "not judged: the function changed its receiver (the judgement step assumes a function that changes nothing)"
+			return false, info
+		}
+		var resPins []Term
+		for _, p := range t.params {
+			if p.Kind != "stream" {
+				continue
+			}
+			so, ok := obs["stream_"+p.Name].(map[string]any)
+			if !ok {
+				info["verdict"] = "not judged: stream observations missing in the run's output"
+				return false, info
+			}
+			consumed, _ := so["consumed"].(float64)
+			whex, _ := so["written"].(string)
+			wbytes, _ := hex.DecodeString(whex)
+			sawEnd, _ := so["saw_end"].(bool)
+			resPins = append(resPins, tEq(p.post["rpos"], tAdd(p.pre["rpos"], fmt.Sprint(int64(consumed)))))
+			resPins = append(resPins, tEq(p.post["wpos"], tAdd(p.pre["wpos"], fmt.Sprint(len(wbytes)))))
+			for k, b := range wbytes {
+				resPins = append(resPins, tEq(tSel(p.post["wdata"], tAdd(p.pre["wpos"], fmt.Sprint(k))), fmt.Sprint(b)))
+			}
+			resPins = append(resPins, tNot(p.post["rfail"]), tNot(p.post["wfail"]))
+			if p.post["rdone"] != p.pre["rdone"] { // only when the contract lets the function change it
+				if sawEnd {
+					resPins = append(resPins, p.post["rdone"])
+				} else {
+					resPins = append(resPins, tNot(p.post["rdone"]))
+				}
+			}
+		}
+		for i, r := range t.results {
+			ov, ok := obs[fmt.Sprintf("r%d", i)].(map[string]any)
+			if !ok {
+				info["verdict"] = "not judged: result missing in the run's output"
+				return false, info
+			}
+			switch r.Kind {
+			case "int", "uint":
+				s, _ := ov["v"].(string)
+				if strings.HasPrefix(s, "-") {
+					resPins = append(resPins, tEq(r.Val.S, "(- "+s[1:]+")"))
+				} else {
+					resPins = append(resPins, tEq(r.Val.S, s))
+				}
+			case "bool":
+				if b, _ := ov["v"].(bool); b {
+					resPins = append(resPins, r.Val.S)
+				} else {
+					resPins = append(resPins, tNot(r.Val.S))
+				}
+			case "string":
+				hx, _ := ov["hex"].(string)
+				bs, _ := hex.DecodeString(hx)
+				resPins = append(resPins, tEq(tApp("slen", r.Val.S), fmt.Sprint(len(bs))))
+				for k, b := range bs {
+					resPins = append(resPins, tEq(tApp("sat", r.Val.S, fmt.Sprint(k)), fmt.Sprint(b)))
+				}
+			case "bytes":
+				hx, _ := ov["hex"].(string)
+				bs, _ := hex.DecodeString(hx)
+				isNil, _ := ov["nil"].(bool)
+				capv, _ := ov["cap"].(float64)
+				resPins = append(resPins, tEq(r.Val.Len, fmt.Sprint(len(bs))), tEq(r.Val.Cap, fmt.Sprint(int64(capv))))
+				if isNil {
+					resPins = append(resPins, tEq(r.Val.Arr, "0"), tEq(r.Val.Off, "0"))
+					break
+				}
+				alias, _ := ov["alias"].(string)
+				aoff, _ := ov["alias_off"].(float64)
+				done := false
 				for _, p := range t.params {
-					if p.Kind == "bytes" && p.Name != "" {
-						resPins = append(resPins, tNot(tEq(r.Val.Arr, p.Val.Arr)))
+					if p.Kind == "bytes" && p.Name == alias && alias != "" {
+						resPins = append(resPins, tEq(r.Val.Arr, p.Val.Arr), tEq(r.Val.Off, tAdd(p.Val.Off, fmt.Sprint(int64(aoff)))))
+						done = true
 					}
 				}
-				if haveElems {
-					for k, b := range bs {
-						resPins = append(resPins, tEq(tSel(tSel(elemHeap, r.Val.Arr), tAdd(r.Val.Off, fmt.Sprint(k))), fmt.Sprint(b)))
+				if !done {
+					resPins = append(resPins, tNot(tEq(r.Val.Arr, "0")))
+					for _, p := range t.params {
+						if p.Kind == "bytes" && p.Name != "" {
+							resPins = append(resPins, tNot(tEq(r.Val.Arr, p.Val.Arr)))
+						}
+					}
+					if haveElems {
+						for k, b := range bs {
+							resPins = append(resPins, tEq(tSel(tSel(elemHeap, r.Val.Arr), tAdd(r.Val.Off, fmt.Sprint(k))), fmt.Sprint(b)))
+						}
 					}
 				}
-			}
-		case "error", "ref":
-			if isNil, _ := ov["nil"].(bool); isNil {
-				resPins = append(resPins, tEq(r.Val.S, "0"))
-			} else {
+			case "struct":
+				if isNil, _ := ov["nil"].(bool); isNil {
+					resPins = append(resPins, tEq(r.Val.S, "0"))
+					break
+				}
 				resPins = append(resPins, tNot(tEq(r.Val.S, "0")))
+				fs, _ := ov["fields"].(map[string]any)
+				for _, f := range r.sub {
+					fo, ok := fs[f.Name].(map[string]any)
+					if !ok {
+						continue
+					}
+					switch f.Kind {
+					case "int", "uint":
+						sv, _ := fo["v"].(string)
+						if strings.HasPrefix(sv, "-") {
+							sv = "(- " + sv[1:] + ")"
+						}
+						resPins = append(resPins, tEq(f.Val.S, sv))
+					case "bool":
+						if bv, _ := fo["v"].(bool); bv {
+							resPins = append(resPins, f.Val.S)
+						} else {
+							resPins = append(resPins, tNot(f.Val.S))
+						}
+					case "string":
+						hx, _ := fo["hex"].(string)
+						bs, _ := hex.DecodeString(hx)
+						resPins = append(resPins, tEq(tApp("slen", f.Val.S), fmt.Sprint(len(bs))))
+						for k, b := range bs {
+							resPins = append(resPins, tEq(tApp("sat", f.Val.S, fmt.Sprint(k)), fmt.Sprint(b)))
+						}
+					}
+				}
+			case "error", "ref":
+				if isNil, _ := ov["nil"].(bool); isNil {
+					resPins = append(resPins, tEq(r.Val.S, "0"))
+				} else {
+					resPins = append(resPins, tNot(tEq(r.Val.S, "0")))
+				}
 			}
 		}
-	}
-	// the judgement query: every hypothesis of the entry state, the concrete inputs, the observed outputs. It is built
-	// twice: in full, and without the quantified hypotheses (for the consistency check only)
-	build := func(full bool) string {
-		var jb strings.Builder
-		jb.WriteString("(set-logic ALL)\n")
-		jb.WriteString(u.decls.text())
-		for _, a := range u.axioms {
-			if full || !hasQuantifier(a) {
-				jb.WriteString("(assert " + a + ")\n")
+		// the judgement query: every hypothesis of the entry state, the concrete inputs, the observed outputs. It is built
+		// twice: in full, and without the quantified hypotheses (for the consistency check only)
+		build := func(full bool) string {
+			var jb strings.Builder
+			jb.WriteString("(set-logic ALL)\n")
+			jb.WriteString(u.decls.text())
+			for _, a := range u.axioms {
+				if full || !hasQuantifier(a) {
+					jb.WriteString("(assert " + a + ")\n")
+				}
 			}
-		}
-		if d := u.strDistinctAxiom(); d != "true" {
-			jb.WriteString("(assert " + d + ")\n")
-		}
-		for _, p := range t.pc {
-			if full || !hasQuantifier(p) {
+			if d := u.strDistinctAxiom(); d != "true" {
+				jb.WriteString("(assert " + d + ")\n")
+			}
+			for _, p := range t.pc {
+				if full || !hasQuantifier(p) {
+					jb.WriteString("(assert " + p + ")\n")
+				}
+			}
+			for _, p := range concPins {
 				jb.WriteString("(assert " + p + ")\n")
 			}
+			for _, p := range resPins {
+				jb.WriteString("(assert " + p + ")\n")
+			}
+			return jb.String()
 		}
-		for _, p := range concPins {
-			jb.WriteString("(assert " + p + ")\n")
+		// consistency first: the inputs and outputs of a real run must be a possible state of the contract's world,
+		// otherwise "unsat" below would say nothing about the clause
+		_, sane := solveModel(build(true)+"(check-sat)\n", 5)
+		if sane != "sat" && sane != "unsat" {
+			_, sane = solveModel(build(false)+"(check-sat)\n", 5)
+			if sane == "sat" {
+				sane = "sat (ground part; the quantified hypotheses left the full query undecided)"
+			}
 		}
-		for _, p := range resPins {
-			jb.WriteString("(assert " + p + ")\n")
+		info["consistency"] = "inputs and observed outputs together with the entry hypotheses: " + sane
+		if !strings.HasPrefix(sane, "sat") {
+			info["verdict"] = "not judged: the concrete inputs and outputs are not shown consistent with the function's preconditions and type facts (" + sane + ")"
+			return false, info
 		}
-		return jb.String()
-	}
-	// consistency first: the inputs and outputs of a real run must be a possible state of the contract's world,
-	// otherwise "unsat" below would say nothing about the clause
-	_, sane := solveModel(build(true)+"(check-sat)\n", 5)
-	if sane != "sat" && sane != "unsat" {
-		_, sane = solveModel(build(false)+"(check-sat)\n", 5)
-		if sane == "sat" {
-			sane = "sat (ground part; the quantified hypotheses left the full query undecided)"
+		var order []string
+		if postLbl != "" {
+			order = append(order, postLbl)
 		}
-	}
-	info["consistency"] = "inputs and observed outputs together with the entry hypotheses: " + sane
-	if !strings.HasPrefix(sane, "sat") {
-		info["verdict"] = "not judged: the concrete inputs and outputs are not shown consistent with the function's preconditions and type facts (" + sane + ")"
+		for _, l := range sortedKeys(t.posts) {
+			if l != postLbl {
+				order = append(order, l)
+			}
+		}
+		words := map[string]string{"unsat": "cannot hold", "sat": "holds", "unknown": "undecided", "timeout": "undecided", "error": "solver error"}
+		judged := map[string]string{}
+		for li, l := range order {
+			if li >= 16 {
+				break // the clause that failed comes first; a bounded number of the others
+			}
+			_, jr := solveModel(build(true)+"(assert "+t.posts[l]+")\n(check-sat)\n", -4)
+			judged["post:"+l] = words[jr]
+			if jr == "unsat" {
+				info["judgement"] = judged
+				info["refuted_clause"] = u.name + "#post:" + l
+				info["verdict"] = "confirmed: on this input the real function returns values that postcondition clause " + l + " excludes (clause instantiated on the concrete inputs and the observed outputs, all hypotheses present: cannot hold)"
+				return true, info
+			}
+		}
+		info["judgement"] = judged
+		info["verdict"] = "not reproduced: the real function's answer on the candidate input contradicts no postcondition clause (the candidate came from a weakened query)"
 		return false, info
 	}
-	var order []string
-	if postLbl != "" {
-		order = append(order, postLbl)
+	ok, info1 := attempt(0, info)
+	if ok || !hasStream {
+		return ok, info1
 	}
-	for _, l := range sortedKeys(t.posts) {
-		if l != postLbl {
-			order = append(order, l)
-		}
+	// the same input once more, delivered one byte per Read (framing code that assumes whole reads shows here)
+	info2 := map[string]any{"function": u.name, "inputs": info["inputs"], "delivery": "one byte per Read"}
+	ok2, info2 := attempt(1, info2)
+	if ok2 {
+		info2["first_run_whole_reads"] = map[string]any{"verdict": info1["verdict"]}
+		return true, info2
 	}
-	words := map[string]string{"unsat": "cannot hold", "sat": "holds", "unknown": "undecided", "timeout": "undecided", "error": "solver error"}
-	judged := map[string]string{}
-	for _, l := range order {
-		_, jr := solveModel(build(true)+"(assert "+t.posts[l]+")\n(check-sat)\n", 10)
-		judged["post:"+l] = words[jr]
-		if jr == "unsat" {
-			info["judgement"] = judged
-			info["refuted_clause"] = u.name + "#post:" + l
-			info["verdict"] = "confirmed: on this input the real function returns values that postcondition clause " + l + " excludes (clause instantiated on the concrete inputs and the observed outputs, all hypotheses present: cannot hold)"
-			return true, info
-		}
-	}
-	info["judgement"] = judged
-	info["verdict"] = "not reproduced: the real function's answer on the candidate input contradicts no postcondition clause (the candidate came from a weakened query)"
-	return false, info
+	info1["second_run_one_byte_reads"] = map[string]any{"verdict": info2["verdict"], "observed": info2["observed"]}
+	return false, info1
 }
 
 func tailLines(s string, n int) string {
@@ -738,12 +1010,24 @@ func goBytesLit(b []byte) string {
 }
 
 // testSource renders the in-package test that calls the function with the concrete inputs and prints what it observed.
-func (t *replayTpl) testSource(conc map[string]rpConcrete) string {
+func (t *replayTpl) testSource(conc map[string]rpConcrete, chunk int) string {
 	var b strings.Builder
 	fmt.Fprintf(&b, "package %s\n\n", t.pkgName)
 	b.WriteString("// Generated by /verif/gocv (replay of a solver model against the real code). Injected with go test -overlay.\n\n")
-	b.WriteString("import (\n\t\"encoding/hex\"\n\t\"encoding/json\"\n\t\"fmt\"\n\t\"testing\"\n\t\"unsafe\"\n)\n\n")
+	b.WriteString("import (\n\t\"encoding/hex\"\n\t\"encoding/json\"\n\t\"fmt\"\n\tgocvio \"io\"\n\tgocvnet \"net\"\n\t\"testing\"\n\tgocvtime \"time\"\n\t\"unsafe\"\n)\n\n")
+	b.WriteString("var gocvEOF = gocvio.EOF\n\ntype gocvNetAddr = gocvnet.Addr\ntype gocvTime = gocvtime.Time\n\n")
 	b.WriteString("var _ = hex.EncodeToString\nvar _ = unsafe.Pointer(nil)\n\n")
+	hasStream := false
+	for _, p := range t.params {
+		if p.Kind == "stream" {
+			hasStream = true
+		}
+	}
+	if hasStream {
+		// the double: a peer that delivers `in` (at most `chunk` bytes per Read when chunk > 0), then end of stream; it
+		// accepts every write
+		b.WriteString(gocvStreamSrc)
+	}
 	b.WriteString("func TestGocvReplay(t *testing.T) {\n\tobs := map[string]any{}\n")
 	lit := func(v rpVar, key string) string {
 		c := conc[key]
@@ -769,6 +1053,11 @@ func (t *replayTpl) testSource(conc map[string]rpConcrete) string {
 			continue
 		}
 		vn := fmt.Sprintf("in%d", i)
+		if p.Kind == "stream" {
+			fmt.Fprintf(&b, "\t%s := &gocvStream{in: %s, chunk: %d} // %s\n", vn, goBytesLit(conc[p.Name].Bytes), chunk, p.Name)
+			args = append(args, vn)
+			continue
+		}
 		fmt.Fprintf(&b, "\t%s := %s // %s\n", vn, lit(p, p.Name), p.Name)
 		if p.Kind == "bytes" {
 			fmt.Fprintf(&b, "\t%s_before := append([]byte(nil), %s...)\n", vn, vn)
@@ -824,9 +1113,29 @@ func (t *replayTpl) testSource(conc map[string]rpConcrete) string {
 			fmt.Fprintf(&b, "\t\tif %s == nil {\n\t\t\tobs[%q] = map[string]any{\"nil\": true}\n\t\t} else {\n\t\t\tobs[%q] = map[string]any{\"nil\": false, \"text\": %s.Error()}\n\t\t}\n", n, n, n, n)
 		case "ref":
 			fmt.Fprintf(&b, "\t\tobs[%q] = map[string]any{\"nil\": %s == nil}\n", n, n)
+		case "struct":
+			fmt.Fprintf(&b, "\t\tif %s == nil {\n\t\t\tobs[%q] = map[string]any{\"nil\": true}\n\t\t} else {\n\t\t\tf := map[string]any{}\n", n, n)
+			for _, f := range r.sub {
+				switch f.Kind {
+				case "int":
+					fmt.Fprintf(&b, "\t\t\tf[%q] = map[string]any{\"v\": fmt.Sprint(int64(%s.%s))}\n", f.Name, n, f.Name)
+				case "uint":
+					fmt.Fprintf(&b, "\t\t\tf[%q] = map[string]any{\"v\": fmt.Sprint(uint64(%s.%s))}\n", f.Name, n, f.Name)
+				case "bool":
+					fmt.Fprintf(&b, "\t\t\tf[%q] = map[string]any{\"v\": bool(%s.%s)}\n", f.Name, n, f.Name)
+				case "string":
+					fmt.Fprintf(&b, "\t\t\tf[%q] = map[string]any{\"hex\": hex.EncodeToString([]byte(string(%s.%s)))}\n", f.Name, n, f.Name)
+				}
+			}
+			fmt.Fprintf(&b, "\t\t\tobs[%q] = map[string]any{\"nil\": false, \"fields\": f}\n\t\t}\n", n)
 		}
 	}
 	b.WriteString("\t}()\n")
+	for i, p := range t.params {
+		if p.Kind == "stream" {
+			fmt.Fprintf(&b, "\tobs[\"stream_%s\"] = map[string]any{\"consumed\": in%d.pos, \"written\": hex.EncodeToString(in%d.out), \"saw_end\": in%d.eof}\n", p.Name, i, i, i)
+		}
+	}
 	for i, p := range t.params {
 		if p.Kind == "bytes" && p.Name != "" {
 			fmt.Fprintf(&b, "\tobs[\"unchanged_%s\"] = string(in%d) == string(in%d_before)\n", p.Name, i, i)
@@ -876,3 +1185,45 @@ func runReplayTest(dir, src string) (string, error) {
 }
 
 var _ = sort.Strings
+
+const gocvStreamSrc = `type gocvStream struct {
+	in    []byte
+	pos   int
+	chunk int
+	out   []byte
+	eof   bool
+}
+
+type gocvAddr struct{}
+
+func (gocvAddr) Network() string { return "gocv" }
+func (gocvAddr) String() string  { return "gocv" }
+
+func (s *gocvStream) Read(p []byte) (int, error) {
+	if len(p) == 0 {
+		return 0, nil
+	}
+	if s.pos >= len(s.in) {
+		s.eof = true
+		return 0, gocvEOF
+	}
+	n := len(p)
+	if s.chunk > 0 && n > s.chunk {
+		n = s.chunk
+	}
+	if n > len(s.in)-s.pos {
+		n = len(s.in) - s.pos
+	}
+	copy(p, s.in[s.pos:s.pos+n])
+	s.pos += n
+	return n, nil
+}
+func (s *gocvStream) Write(p []byte) (int, error)       { s.out = append(s.out, p...); return len(p), nil }
+func (s *gocvStream) Close() error                      { return nil }
+func (s *gocvStream) LocalAddr() gocvNetAddr            { return gocvAddr{} }
+func (s *gocvStream) RemoteAddr() gocvNetAddr           { return gocvAddr{} }
+func (s *gocvStream) SetDeadline(t gocvTime) error      { return nil }
+func (s *gocvStream) SetReadDeadline(t gocvTime) error  { return nil }
+func (s *gocvStream) SetWriteDeadline(t gocvTime) error { return nil }
+
+`
